@@ -195,6 +195,25 @@ pub fn run_spline_job_t<T: Fl>(job: &SplineJob, want: Want, out: &mut JobOut) {
         }
     };
     out.transitions += 1;
+    // the same data in two other memory layouts (F order, lanes reversed in memory) must give
+    // the same spline: the structural / exact oracles below then hold for them as well
+    for (layout, d2) in crate::subj::layouts2(&data).into_iter().skip(1) {
+        crate::subj::set_axis_reversed_in_memory(layout == "rev");
+        let r2 = catch(|| build_spline::<T, _>(&xt, d2, &job.spec, false).map(|ip| ip.interp_array(&qarr)));
+        crate::subj::set_axis_reversed_in_memory(false);
+        out.transitions += 1;
+        let same = match &r2 {
+            Ok(Ok(Ok(r2))) => r2.iter().zip(res.iter()).all(|(a, b)| crate::fl::same_bits(*a, *b)),
+            _ => false,
+        };
+        if !same {
+            out.violate(
+                format!("{key0}:data-layout-{layout}"),
+                format!("the spline built from the same data stored in layout '{layout}' differs from the one built from C-order data (or failed)"),
+                case_json::<T>(job, None, None),
+            );
+        }
+    }
     let den = job.den as usize;
     let s = |iv: usize, kk: usize, lane: usize| -> f64 { res[[iv * den + kk, lane]].to_f64() };
 
